@@ -53,6 +53,8 @@ TP ==
                           THEN (IF stv[E.r] < mst[E.r] THEN V(FALSE, "ReadNotStaleSharedFetch") ELSE V(FALSE, "ReadNotStaleLoweredRevision"))
                           ELSE {})
                     \cup (IF E.a = "ReadError" THEN V(FALSE, "ProtocolReadServed") ELSE {})
+                    \* the fetch came back and the read went on without storing the fetched revision
+                    \cup (IF E.a = "NoSet" THEN V(FALSE, "FollowerAdoptsFetched") ELSE {})
 TReset == /\ Is("Reset") /\ l' = l + 1 /\ lr' = 5 /\ mst' = [r \in RS |-> 0] /\ stv' = [r \in RS |-> 0] /\ UNCHANGED viol
 TNext == TCase \/ TP \/ TReset
 TSpec == TInit /\ [][TNext]_tvars
@@ -68,4 +70,5 @@ M_FollowerReadFailsWithoutLeader == NoViol("FollowerReadFailsWithoutLeader")
 M_ReadNotStaleSharedFetch == NoViol("ReadNotStaleSharedFetch")
 M_ReadNotStaleLoweredRevision == NoViol("ReadNotStaleLoweredRevision")
 M_ProtocolReadServed == NoViol("ProtocolReadServed")
+M_FollowerAdoptsFetched == NoViol("FollowerAdoptsFetched")
 =============================================================================
